@@ -156,18 +156,19 @@ def main():
     # real code: both are refutations.  A Verus failure is an obligation that is no longer discharged.  Policy:
     #   * if nothing else speaks against the tree, the bounded stand-in is escalated once to its thorough tier (fresh seed);
     #     a witness found there turns the failure into a violation with a replayable input;
-    #   * still no witness, and the property itself is the absence of panics / non-termination (C01): failures of SAFETY
-    #     obligations (arithmetic overflow, index/slice bounds, unreachable!/panic! reached, termination) of the decoding
-    #     functions ARE the property; they stay violations and are reported with `no-failing-input-found`;
-    #   * every other proof failure (postcondition, invariant, assertion, precondition of a contracted callee; safety obligations
-    #     attributed to a functional property) whose behaviour the stand-in exercised N times without finding a failing input is
-    #     reported as UNDECIDED (exit 2): measured over 30 behaviour-preserving refactorings and 73 seeded defects, a proof
-    #     failure without any failing input was a lost proof hint as often as a defect the stand-in had missed (3 : 3).
+    #   * still no witness: the failure is reported as UNDECIDED (exit 2) with the obligation, Verus' diagnostic and the number of
+    #     bounded evaluations that found nothing.  Measured over 30 behaviour-preserving refactorings, 16 property-preserving
+    #     behaviour changes and 73 seeded defects, a proof failure without any failing input was a lost proof hint (4 cases:
+    #     B2-3, B8-3, B7-2, P1-1 - the last two are *safety* obligations: an overflow that needs a bit-vector hint, a length lost
+    #     through a `&mut` reborrow) at least as often as a defect the stand-in had missed (3 cases, each since covered by an
+    #     extension of the stand-in).  Kani failures are different: CBMC only fails with a concrete counterexample trace.
     SAFETY_MARKS = ('arithmetic underflow/overflow', 'index out of bounds', 'unreached', 'decreases not satisfied', 'unwrap', 'division by zero',
                     'possible bit shift', 'cannot show termination', 'slice index')
-    PANIC_FREEDOM_PROPS = ('C01',)
     def _is_safety(v):
-        return pid in PANIC_FREEDOM_PROPS and any(m in (v.get('what') or '') for m in SAFETY_MARKS)
+        # kept for the evidence only (class of the undischarged obligation); no class is reported as a violation without a witness
+        return False
+    def _class(v):
+        return 'safety' if any(m in (v.get('what') or '') for m in SAFETY_MARKS) else 'functional'
     def _unknown(v):
         return not any(k['key'] == v.get('key') for k in known)
     fresh = [v for v in violations if _unknown(v)]
@@ -184,7 +185,7 @@ def main():
                 if v['engine'] == 'vx' and _unknown(v) and not _is_safety(v):
                     undecided.append('vx: obligation no longer discharged, no failing input found by %d bounded evaluations (quick and thorough tier): %s'
                                      % (bx_eval, v['what'][:300]))
-                    cov.setdefault('uncorroborated_proof_failures', []).append({'obligation': v.get('obligation'), 'what': v.get('what'), 'detail': (v.get('detail') or '')[:1500]})
+                    cov.setdefault('uncorroborated_proof_failures', []).append({'obligation': v.get('obligation'), 'class': _class(v), 'what': v.get('what'), 'detail': (v.get('detail') or '')[:1500]})
                 else:
                     kept.append(v)
             violations = kept
